@@ -3,10 +3,8 @@ package main
 import (
 	"verif/internal/load"
 	"verif/internal/rep"
-	"verif/internal/roles"
 )
 
 // stubs for rules built in later steps
 func rulePurity(c *Ctx, r *rep.Report, cone string)                                          {}
-func ruleBatchAll(c *Ctx, r *rep.Report, p *load.Program, rl *roles.Roles, fl *flags)        {}
 func ruleBitOrigin(r *rep.Report, p *load.Program, pkg string)                               {}
